@@ -66,6 +66,12 @@ SETUP_RE = re.compile(r"^(matrixSslOpenWithConfig|matrixSslOpen|matrixSslClose|p
                       r"initSessionEntryChronList|matrixSslSetSessionTicketCallback|"
                       r"matrixSslLoad(?!SessionTicketKeys)\w*|matrixSslAddTrustAnchors\w*|matrixSslLoadKeyMaterial\w*|"
                       r"matrixSslAddIdentity\w*|matrixSslDelIdentity\w*|sslLoad\w*|matrixSslFreeKeys\w*)$")
+# alias exemptions of the flow-insensitive taint: (function, lhs, rhs) assignments that do NOT make lhs point into what rhs
+# points into, with the reason (trusted; validated dynamically by the TSan runs on the paths they exercise)
+NOFLOW = {
+    ("psX509AuthenticateCert", "sc", "ic"): "chain walk `sc = ic` is only reached when issuerCert == NULL (ic is set to NULL after the single test with a given issuer)",
+    ("psOcspResponseValidate", "subject", "curr"): "`subject = curr` is inside the loop over response->OCSPResponseCert; curr is re-used later for the trusted list",
+}
 # lock wrapper functions (their definitions are primitives, not table entries)
 LOCK_WRAP = {"psCoreLibInternalLock": "m_corelib"}
 UNLOCK_WRAP = {"psCoreLibInternalUnlock": "m_corelib"}
@@ -166,6 +172,8 @@ class Func:
         self.ast = None
         self.taint = {}             # var -> set of sources ("S:<shared>" | "P:<k>")
         self.derefR, self.derefW = set(), set()      # param indices dereferenced / written (transitively)
+        self.wwhy = {}              # param index -> (line, how) witness of the first write found
+        self.directW = set()        # param indices written by an lvalue of this function itself
         self.out_taint = {}         # param index -> set(sources) assigned to *param
         self.ret_taint = set()
         self.calls = set()          # lexical callees
@@ -543,13 +551,16 @@ def scan_expr(fn, toks, ctx, events, assigns=None):
             cc = callctx[i]
             if deref:
                 rw = "W" if is_written(i) else "R"
-                # a nested struct / array member handed to a mutator: memcpy(v->f, ...)
+                # a nested struct / array member handed to a mutator: memcpy(v->f, ...), g(&v->f) with g writing
                 if rw == "R" and cc and cc[0] in WRITE_ARG0 and cc[1] == 0: rw = "W"
+                if rw == "R" and cc and cc[0] in ctx.funcs and cc[1] in ctx.funcs[cc[0]].directW: rw = "W"
                 for s in sorted(srcs):
                     if s.startswith("S:"): events.append(("acc", s[2:], rw, t.line, "deref " + t.s))
                     else:
                         k = int(s[2:]); fn.derefR.add(k)
-                        if rw == "W": fn.derefW.add(k)
+                        if rw == "W":
+                            if is_written(i): fn.directW.add(k)
+                            fn.derefW.add(k); fn.wwhy.setdefault(k, (t.line, "write through " + t.s + ((" in call to " + cc[0]) if cc else "")))
             elif cc and nxt in (",", ")") and prev != "&":
                 # the pointer itself is an argument
                 callee, k, _pi = cc
@@ -563,7 +574,8 @@ def scan_expr(fn, toks, ctx, events, assigns=None):
                         if s.startswith("S:"): events.append(("acc", s[2:], "W" if dw else "R", t.line, "arg %d of %s" % (k, callee)))
                         else:
                             kk = int(s[2:]); fn.derefR.add(kk)
-                            if dw: fn.derefW.add(kk)
+                            if dw:
+                                fn.derefW.add(kk); fn.wwhy.setdefault(kk, (t.line, "passed to %s (parameter %d)" % (callee, k)))
         i += 1
 
 
@@ -644,7 +656,7 @@ def is_ptr_var(fn, v):
 def taint_pass(fn, ctx):
     """one flow-insensitive pass; returns True if anything changed"""
     before = (sum(len(v) for v in fn.taint.values()), len(fn.derefR), len(fn.derefW), len(fn.ret_taint),
-              sum(len(v) for v in fn.out_taint.values()), len(fn.taint))
+              sum(len(v) for v in fn.out_taint.values()), len(fn.taint), len(fn.directW))
     pidx = {n: k for k, (n, _p, _t) in enumerate(fn.params)}
     def add(v, srcs):
         if srcs and is_ptr_var(fn, v):
@@ -654,6 +666,7 @@ def taint_pass(fn, ctx):
             ev, asg = [], []
             scan_expr(fn, ex, ctx, ev, asg)
             for lhs, rhs in asg:
+                if len(rhs) == 1 and (fn.name, lhs, rhs[0].s) in NOFLOW: continue
                 srcs = rhs_sources(fn, rhs, ctx)
                 if lhs.startswith("*"):
                     v = lhs[1:]
@@ -679,7 +692,7 @@ def taint_pass(fn, ctx):
                 fn.ret_taint |= rhs_sources(fn, ex, ctx)
     walk(fn.ast, f)
     after = (sum(len(v) for v in fn.taint.values()), len(fn.derefR), len(fn.derefW), len(fn.ret_taint),
-             sum(len(v) for v in fn.out_taint.values()), len(fn.taint))
+             sum(len(v) for v in fn.out_taint.values()), len(fn.taint), len(fn.directW))
     return after != before
 
 
@@ -688,8 +701,8 @@ def init_taint(fn):
         tys = " ".join(t.s for t in ty) if ty and not isinstance(ty, str) else str(ty)
         if nptr >= 1:
             fn.taint.setdefault(n, set()).add("P:%d" % k)
-        for T, sh in TYPE_SHARED.items():
-            if nptr == 1 and re.search(r"\b%s\b" % T, tys): fn.taint.setdefault(n, set()).add("S:" + sh)
+        # (parameters are not tainted by type: what a callee does with a parameter is accounted at the call sites
+        #  whose argument points into a shared structure)
     for v, (ty, nptr) in fn.locals.items():
         for T, sh in TYPE_SHARED.items():
             if nptr == 1 and re.search(r"\b%s\b" % T, ty): fn.taint.setdefault(v, set()).add("S:" + sh)
@@ -940,6 +953,93 @@ def needs_context(tree, trees, depth=0):
     return bad[0]
 
 
+def diagnose(entry_key, trees, kinds, rank):
+    """Python mirror of ConcModel.run, only to NAME the offending leaf (the verdict is Coq's)"""
+    guard = {n: m for n, m, _p in SHARED}
+    fails = []
+    def fail(why, t):
+        fails.append((why, t[3] if t and t[0] == "leaf" and len(t) > 3 else 0))
+        raise StopIteration
+    def note(why):
+        if (why, 0) not in fails: fails.append((why, 0))
+    def join(a, b, what):
+        if a is None: return b
+        if b is None: return a
+        if a != b: fails.append(("lock state differs at a join (%s): %s vs %s" % (what, sorted(a), sorted(b)), 0)); raise StopIteration
+        return a
+    def run(fkey, t, H0, S, depth):
+        k = t[0]
+        if k == "skip": return (S, None, None)
+        if k == "break": return (None, S, None)
+        if k == "continue": return (None, None, S)
+        if k == "ret":
+            if S != H0: fails.append(("return in %s with lock state %s instead of %s" % (fkey, sorted(S), sorted(H0)), 0)); raise StopIteration
+            return (None, None, None)
+        if k == "leaf":
+            if t[1] == "lock":
+                if t[2] in S: fail("%s: %s taken while already held (self-deadlock)" % (fkey, t[2]), t)
+                if any(rank.get(h, 99) >= rank.get(t[2], -1) for h in S): fail("%s: %s taken while %s held (lock order)" % (fkey, t[2], sorted(S)), t)
+                return (S | {t[2]}, None, None)
+            if t[1] == "unlock":
+                if t[2] not in S: fail("%s: %s released but not held" % (fkey, t[2]), t)
+                return (S - {t[2]}, None, None)
+            if t[1] == "acc":
+                m = guard.get(t[2], "?")
+                # access failures are recorded and the walk goes on (all of them are wanted in the report)
+                if m is None:
+                    if t[3] == "W": note("%s: write to %s (no mutex: set-up only) at line %s" % (fkey, t[2], t[4]))
+                elif m not in S: note("%s: %s %s without %s at line %s" % (fkey, "write to" if t[3] == "W" else "read of", t[2], m, t[4]))
+                return (S, None, None)
+            if t[1] == "call":
+                c = t[2]
+                if c not in trees:
+                    ms = SUMMARY_LOCKS.get(c, [])
+                    for m in ms:
+                        if m in S: fail("%s: calls %s, which may take %s, while holding it" % (fkey, c, m), t)
+                        if any(rank.get(h, 99) >= rank.get(m, -1) for h in S): fail("%s: calls %s (may take %s) while holding %s (lock order)" % (fkey, c, m, sorted(S)), t)
+                    return (S, None, None)
+                if kinds.get(c) == "Waived": return (S, None, None)
+                if depth > 40: fail("%s: call depth exceeded (recursion) at %s" % (fkey, c), t)
+                n, b, ct = run(c, trees[c], S, S, depth + 1)
+                if b is not None or ct is not None or (n is not None and n != S): fail("%s: callee %s leaves the lock state changed" % (fkey, c), t)
+                return (S, None, None)
+        if k == "seq":
+            cur, bk, ct = S, None, None
+            for x in t[1]:
+                n, b, c2 = run(fkey, x, H0, cur, depth)
+                bk = join(bk, b, "break"); ct = join(ct, c2, "continue")
+                cur = n
+                if cur is None: break
+            return (cur, bk, ct)
+        if k == "choice":
+            nn = bb = cc = None
+            for x in t[1]:
+                n, b, c2 = run(fkey, x, H0, S, depth)
+                nn = join(nn, n, "if/else"); bb = join(bb, b, "break"); cc = join(cc, c2, "continue")
+            return (nn, bb, cc)
+        if k == "loop":
+            n, b, c2 = run(fkey, t[1], H0, S, depth)
+            if (n is not None and n != S) or (c2 is not None and c2 != S):
+                fails.append(("%s: a loop iteration changes the lock state %s -> %s" % (fkey, sorted(S), sorted(n if n is not None else c2)), 0)); raise StopIteration
+            return (join(S, b, "loop exit"), None, None)
+        if k == "catch":
+            n, b, c2 = run(fkey, t[1], H0, S, depth)
+            return (join(n, b, "switch exit"), None, c2)
+        raise ValueError(k)
+    try:
+        n, b, c = run(entry_key, trees[entry_key], frozenset(), frozenset(), 0)
+        if b is not None or c is not None or (n is not None and n != frozenset()):
+            fails.append(("%s: falls off the end holding %s" % (entry_key, sorted(n or b or c)), 0))
+    except StopIteration:
+        pass
+    except RecursionError:
+        fails.append(("%s: recursion limit in the diagnostic walker" % entry_key, 0))
+    return fails
+
+
+SUMMARY_LOCKS = {}
+
+
 # ---------------------------------------------------------------------------------------------- main
 def source_list():
     log = os.path.join(REPO, "verif-build.log")
@@ -965,7 +1065,8 @@ def source_list():
                     argv.append(w)
                 CMDS[rel] = (cwd, argv)
                 files.append(rel)
-    if not files:
+    # always add the library directories themselves (an incremental build log lists only recompiled files)
+    if True:
         for top in ("core/src", "core/osdep/POSIX", "crypto", "matrixssl"):
             for root, _d, fs in os.walk(os.path.join(REPO, top)):
                 if "/test" in root or "/apps" in root: continue
@@ -1022,6 +1123,18 @@ def main():
             allf.append(fn)
     for fn in allf:
         collect_decls(fn); init_taint(fn)
+    # simple lock wrappers:  void f(void) { psLockMutex(&M); }   ->  calls to f are Lock M leaves
+    for fn in list(allf):
+        body = fn.ast[1]
+        real = [st for st in body if not (st[0] == "return" and not st[1])]
+        if len(real) == 1 and real[0][0] == "expr":
+            ev = []
+            scan_expr(fn, real[0][1], ctx, ev)
+            if len(ev) == 1 and ev[0][0] in ("lock", "unlock") and not ev[0][1].startswith("m_unknown"):
+                (LOCK_WRAP if ev[0][0] == "lock" else UNLOCK_WRAP)[fn.name] = ev[0][1]
+    for fn in list(allf):
+        if fn.name in LOCK_WRAP or fn.name in UNLOCK_WRAP:
+            allf.remove(fn); ctx.funcs.pop(fn.key, None)
     # inter-procedural fixpoint of taints and parameter summaries (worklist over the lexical call graph)
     def lexical_calls(fn):
         out = set()
@@ -1093,13 +1206,28 @@ def main():
     # table = functions with direct leaves; then: callers of helpers (closure); summaries for lock-taking callees
     table = dict(direct)
     kinds, trees, census = {}, {}, {}
+    def reaches(src, dst, seen=None):
+        """lexical call-graph reachability restricted to the table"""
+        seen = seen if seen is not None else set()
+        for c in ctx.funcs[src].calls:
+            for k2 in (c,):
+                if k2 == dst: return True
+                if k2 in table and k2 not in seen:
+                    seen.add(k2)
+                    if reaches(k2, dst, seen): return True
+        return False
+    def lockfree(k): return not ctx.funcs[k].direct_locks
     def keep_call_for(fnkey):
         f = ctx.funcs[fnkey]
         holds = bool(f.direct_locks) or tree_kind_hint.get(fnkey) == "Helper"
         def keep(c):
             if c.startswith("cb:"):
                 return holds
-            if c in table: return kinds.get(c) == "Helper" or holds or True
+            if c in table:
+                # recursion among functions WITHOUT lock operations of their own: the lock state at the recursive call
+                # is the state at entry, the recursive instance adds no new lock behaviour -> the back edge is dropped
+                if lockfree(fnkey) and (c == fnkey or reaches(c, fnkey)) and lockfree(c): return False
+                return True
             if holds and may_lock.get(c): return True
             return False
         return keep
@@ -1223,15 +1351,25 @@ def main():
         open(p, "w").write(s); st = "updated"
     else:
         st = "unchanged"
+    SUMMARY_LOCKS.update(summaries)
+    rank = {n: i for i, (n, _r) in enumerate(MUTEXES)}
+    static_failures = []
+    sys.setrecursionlimit(20000)
+    for k in order:
+        if kinds[k] == "Entry":
+            for why, line in diagnose(k, trees, kinds, rank):
+                if why not in [x["why"] for x in static_failures]:
+                    static_failures.append({"function": ctx.funcs[k].name, "file": ctx.funcs[k].file, "why": why})
     if json_out:
         js = {"repo": REPO, "files_scanned": len(files), "functions_parsed": len(allf), "skipped": skipped, "ticket_pin": pin,
               "mutexes": [n for n, _ in MUTEXES], "shared": [{"name": n, "mutex": m, "roots": p2} for n, m, p2 in SHARED],
-              "unknown_mutex": sorted(unknown_mutex),
+              "unknown_mutex": sorted(unknown_mutex), "static_failures": static_failures, "alias_exemptions": ["%s: %s = %s  (%s)" % (a, b, c, d) for (a, b, c), d in NOFLOW.items()],
               "functions": [{"id": fid[k], "name": ctx.funcs[k].name, "file": ctx.funcs[k].file, "line": ctx.funcs[k].line, "kind": kinds[k],
                              "leaves": [list(l) for l in census[k]]} for k in order],
               "summaries": summaries,
               "indirect_calls_in_lock_holders": sorted(set((ctx.funcs[k].name, c) for k in order for c in ctx.funcs[k].icalls if ctx.funcs[k].direct_locks)),
-              "writers_through_params": sorted((f.name, sorted(f.derefW)) for f in allf if f.derefW and f.key in table)}
+              "writers_through_params": sorted((f.name, sorted(f.derefW)) for f in allf if f.derefW and f.key in table),
+              "write_witness": {f.name: {str(k): [f.file, v[0], v[1]] for k, v in f.wwhy.items()} for f in allf if f.wwhy}}
         json.dump(js, open(json_out, "w"), indent=1)
     if unknown_mutex:
         print("translator: mutex expression(s) not in the table: %s" % sorted(unknown_mutex)); sys.exit(4)
